@@ -467,6 +467,123 @@ def stage_leave_corr(ctx: Ctx, progs):
                        len(terms), [meta[i] for i in failed])
 
 
+def stage_search_send(ctx: Ctx):
+    """search() (the consumer sub() is built on) honours send(): at the entry yield of a match the caller's send(True / False) decides whether the search goes on inside the
+    match, otherwise `nested` does; every combination of decisions at the first four yields, on='enter' and on='both', nested on and off, vs a reference recursion"""
+    import fst, itertools
+    from fst.match import MCall, MList
+    progs = ['x = f(g(h(a)), [f(b), c])\ny = [[1, [2]], f([3])]\n', 'r = f(f(f(x)))\n', 'r = [f([g([h])])]\n']
+    for src in progs:
+        for pname, mk in (('Call', lambda: MCall()), ('List', lambda: MList()), ('expr', lambda: ast.expr)):
+            for on in ('enter', 'both'):
+                for nested in (True, False):
+                    for decisions in itertools.product((None, True, False), repeat=4):
+                        root = fst.FST(src, 'exec')
+                        pat = mk()
+                        # reference
+                        want, k = [], [0]
+
+                        def visit(n):
+                            m = n.match(pat) is not None and n is not root
+                            rec = True
+                            if m:
+                                d = decisions[k[0]] if k[0] < len(decisions) else None
+                                k[0] += 1
+                                want.append((id(n), False) if on == 'both' else id(n))
+                                rec = nested if d is None else d
+                            if rec:
+                                for c in n.walk(self_=False, recurse=False):
+                                    visit(c)
+                            if m and on == 'both':
+                                k[0] += 1
+                                want.append((id(n), True))
+                        visit(root)
+                        got, j = [], 0
+                        try:
+                            gen = root.search(mk(), nested, on=on)
+                            for g in gen:
+                                mm, leaving = g if isinstance(g, tuple) else (g, None)
+                                got.append((id(mm.matched), leaving) if on == 'both' else id(mm.matched))
+                                d = decisions[j] if j < len(decisions) else None
+                                j += 1
+                                if d is not None and not leaving:
+                                    gen.send(d)
+                                if len(got) > 200:
+                                    raise RuntimeError('does not end')
+                        except Exception as e:
+                            ctx.violation(f'search-send-raise|{type(e).__name__}', 'search() raised', {'src': src, 'pattern': pname, 'on': on, 'nested': nested, 'decisions': list(decisions), 'error': repr(e)[:200]})
+                            continue
+                        ctx.tick(('search-send', src, pname, on, nested, decisions), f'search-send:{on}:' + ('nested' if nested else 'flat'))
+                        # decisions at leaving yields are not sent (k and j count them alike)
+                        if got != want:
+                            names = {id(f): f.src for f in root.walk(True) if f.loc}
+                            show = lambda seq: [(names.get(x[0]), x[1]) if isinstance(x, tuple) else names.get(x) for x in seq]
+                            ctx.violation(f'search-send|{on}|{"nested" if nested else "flat"}', "search() does not honour the caller's send() at the entry yield of a match (or its `nested` default)",
+                                          {'src': src, 'pattern': pname, 'on': on, 'nested': nested, 'decisions_at_yields': list(decisions), 'search_yields': show(got), 'expected': show(want)})
+                            break
+
+
+def stage_slice_removals(ctx: Ctx):
+    """deterministic: while a walk is at the first element of a sequence (the last for back=True), every other element is removed with a SLICE operation on the parent
+    (`del view[i]`, `put_slice(None, i, i + 1, field)`), also through the virtual fields that merge several AST lists / single nodes (arguments._all, Call._args,
+    ClassDef._bases, Dict._all, MatchMapping._all): the walk never yields a removed node (nor anything below it), does not raise, and the tree re-parses to itself"""
+    import fst
+    hosts = [('def f(a, b=1, *args: T, c=2, **kw: U) -> R: pass\n', 'm.body[0].args', '_all', 5), ('def f(a, /, b: X = 1, *, c: Y, d=(2, 3)): pass\n', 'm.body[0].args', '_all', 4),
+             ('r = g(a, *b, k=(1, 2), **c)\n', 'm.body[0].value', '_args', 4), ('class K(A, *b, m=M[0], **c): pass\n', 'm.body[0]', '_bases', 4),
+             ('r = {a: (1, 2), **b, c: [d]}\n', 'm.body[0].value', '_all', 3), ('match v:\n    case {1: [p], 2: q, **rest}: pass\n', 'm.body[0].cases[0].pattern', '_all', 3),
+             ('r = [a, (b, c), d.e]\n', 'm.body[0].value', 'elts', 3), ('with a as b, c(d), e: pass\n', 'm.body[0]', 'items', 3), ('import a, b.c as d, e\n', 'm.body[0]', 'names', 3),
+             ('r = f(a)(b, c=(d))\n', 'm.body[0].value', 'keywords', 1), ('lambda a, *b, c=(1, 2), **d: 0\n', 'm.body[0].value.args', '_all', 4)]
+    for src, path, field, n in hosts:
+        for on in ('enter', 'leave', 'both'):
+            for back in (False, True):
+                for victim in range(n):
+                    for how in ('del-view', 'put_slice-none'):      # (not cut: walk() documents that cut nodes may still be walked)
+                        m = fst.FST(src, 'exec')
+                        host = eval(path, {'m': m})
+                        # the walk position at which to act: the first node yielded that lies inside the host (for 'leave' this is a leaf of the first element)
+                        acted = False
+                        removed_ids = None
+                        rec = {'src': src, 'host': path, 'field': field, 'remove_index': victim, 'how': how, 'walk': {'on': on, 'back': back}}
+                        bad = None
+                        try:
+                            steps = 0
+                            for g in m.walk(True, on, back=back):
+                                steps += 1
+                                if steps > 300:
+                                    raise RuntimeError('walk does not end')
+                                node, leaving = g if isinstance(g, tuple) else (g, on == 'leave')
+                                if acted and (node.a is None or not in_tree(m, node)):
+                                    bad = ('yield-detached', repr(node))
+                                    break
+                                if not acted and node is not host and any(p is host for p in node.parents()):
+                                    view = getattr(host, field)
+                                    if victim >= len(view):
+                                        break
+                                    # do not remove what we are standing in (that is the other half of the property): skip if the current node lies inside the victim
+                                    before_nodes = {id(f) for f in m.walk(True)}
+                                    try:
+                                        if how == 'del-view':
+                                            del view[victim]
+                                        elif how == 'put_slice-none':
+                                            host.put_slice(None, victim, victim + 1, field)
+                                        else:
+                                            host.get_slice(victim, victim + 1, field, cut=True)
+                                    except Exception:
+                                        ctx.dist['slice-removal:refused'] = ctx.dist.get('slice-removal:refused', 0) + 1
+                                        break
+                                    acted = True
+                                    if reparse_diffs(m):
+                                        break       # the removal itself left an invalid tree (C01 / C03)
+                        except Exception as e:
+                            bad = (f'walk-raise|{type(e).__name__}', repr(e)[:200])
+                        if not acted:
+                            continue
+                        ctx.tick(('slice-removal', src, field, victim, how, on, back), 'slice-removal:' + on)
+                        if bad:
+                            ctx.violation(f'{bad[0]}|slice-removal|{field}', 'after a slice removal of a sibling during the walk the iteration raised or yielded a node that is no longer part of the tree',
+                                          {**rec, 'detail': bad[1], 'src_now': m.src})
+
+
 RESEND_PROGS = ['r = [a, [b, c], d]\n', 'x = f(a, g(b, k=c), d)\ny = 1\n', 'if a:\n    b = (c, {d: e})\nelse:\n    z = -w\n', 'v = [i for i in (j, k) if l]\n']
 
 
@@ -562,6 +679,8 @@ def run(ctx: Ctx):
     run_guarded(ctx, stage_oracle, progs)
     run_guarded(ctx, stage_scope_targets)
     run_guarded(ctx, stage_resend)
+    run_guarded(ctx, stage_slice_removals)
+    run_guarded(ctx, stage_search_send)
     run_guarded(ctx, stage_leave_corr, progs)
     run_guarded(ctx, stage_corr, progs)
 
